@@ -118,10 +118,7 @@ class FortranCodegenConservative(FortranCodegen):
         return super().visit_Conditional(o, *args, **kwargs)
 
     def visit_MaskedStatement(self, o, *args, **kwargs):
-        if o.source and o.source.status == SourceStatus.VALID:
-            return o.source.string
-
-        if o.inline and o.source and o.source.status == SourceStatus.INVALID_CHILDREN:
+        if o.inline and o.source and o.source.status in (SourceStatus.VALID, SourceStatus.INVALID_CHILDREN):
             # As for inline conditionals: the body statement shares the source line
             if len(o.bodies) == 1 and len(o.bodies[0]) == 1 and self._is_source_valid(o.bodies[0][0]):
                 return o.source.string
